@@ -74,7 +74,15 @@ def props_of(rep, rec=None):
     elif tag == "post.next":
         out |= {"C14", "C10", "C20"}
     elif tag == "post.cnt":
-        out |= {"C10", "C13"}
+        exp, got = rep.get("exp"), rep.get("got")
+        if isinstance(exp, dict) and isinstance(got, dict):
+            diff = {k for k in set(exp) | set(got) if exp.get(k) != got.get(k)}
+        else:
+            diff = {"?"}
+        if diff - {"sendtx"}:
+            out |= {"C10", "C13"}
+        if "sendtx" in diff or (rec is not None and rec.get("ev") == "send_tx"):
+            out |= {"C19"}              # "counts the request ... in none of these cases is anything forwarded or counted"
     elif tag.startswith("book."):
         out |= {"C20"}
     elif tag == "push.result":
@@ -91,6 +99,16 @@ def props_of(rep, rec=None):
         out |= set(CANISTER_PROPS)
     if rep.get("paused"):
         out.add("C08")
+    if rec is not None and rec.get("ev") in ("hb", "hb_send", "ingest") and (rec.get("budget") or 0) > 0 and tag.startswith("post."):
+        # C08: "the complete observable state afterwards is identical to that of a run in which nothing was
+        # sliced" - a wrong post-state of a heartbeat that ran under an instruction budget
+        out.add("C08")
+    if rec is not None and rec.get("ev") in ("q", "send_tx") and tag.startswith("post.") \
+            and isinstance(rec.get("ans"), dict) and rec["ans"].get("k") == "trap":
+        # C14: a refused call has no effect
+        out.add("C14")
+    if tag.startswith("cycles.refused"):
+        out.add("C14")
     if rep.get("upg") or (rec is not None and rec.get("ev") == "upgrade"):
         out.add("C09")
     return out
